@@ -19,7 +19,7 @@
 (*   end: 0 = iterator returned None, 1 = an Err item came (after = number *)
 (*   of items yielded after it), 2 = runaway, 3 = panic                    *)
 (***************************************************************************)
-EXTENDS RefSem, Api, Expand, Json, IOUtils
+EXTENDS Compile, VM, Api, Expand, Json, IOUtils
 
 Rec   == ndJsonDeserialize(IOEnv.VH_RECS)
 Texts == LET T == ndJsonDeserialize(IOEnv.VH_TEXTS) IN [q \in 1..Len(T) |-> T[q].t]
@@ -33,10 +33,25 @@ Excluded(ast) == Excl = "F1" /\ Excluded_F1(ast)
 Emit(tag, r) == PrintT("@@" \o tag \o " " \o ToJson(r))
 Pick(S) == IF S = {} THEN <<>> ELSE CHOOSE x \in S : TRUE
 
-LeafTable(ast, ng, t) ==
+RefLeafTable(ast, ng, t) ==
    LET f == TLCEval(SearchAll(ast, ng, t))
        g == IF HasKind(ast, {"cont"}) THEN TLCEval([p \in 0..Len(t) |-> SearchF(ast, ng, t, p, TRUE)]) ELSE f
    IN [q \in (0..Len(t)) \X BOOLEAN |-> IF q[2] THEN g[q[1]] ELSE f[q[1]]]
+(***************************************************************************)
+(* Patterns of the class of a known finding (F1) are judged against the    *)
+(* DESIGN MODEL instead of RefSem (see TraceRows): the leaf table is what  *)
+(* the Compile.tla program run by VM.tla answers for (offset, skip flag).  *)
+(***************************************************************************)
+DesignLeafTable(ast, ng, t) ==
+   LET pr == TLCEval(Compile(ast, ng))
+       o == Offs(t)
+       Leaf(p, skip) ==
+          LET env == [prog |-> pr.p, ns |-> pr.ns, t |-> t, pos |-> o[p], skip |-> skip, limit |-> 1000000, maxstack |-> 1000000]
+              fin == RunToEnd(InitState(env), env, 20000)
+          IN IF fin.st = "match" THEN [j \in 1..(2 * ng + 2) |-> IF fin.saves[j] = -1 THEN NoCap ELSE CharPos(t, fin.saves[j])]
+             ELSE IF fin.st = "nomatch" THEN <<>> ELSE ErrV
+   IN TLCEval([q \in (0..Len(t)) \X BOOLEAN |-> Leaf(q[1], q[2])])
+LeafTable(ast, ng, t) == IF Excluded(ast) /\ Compile(ast, ng).err = "" THEN DesignLeafTable(ast, ng, t) ELSE RefLeafTable(ast, ng, t)
 
 RECURSIVE Flat(_, _, _)
 Flat(sp, o, j) == IF j > Len(sp) THEN <<>> ELSE <<o[sp[j][1]], o[sp[j][2]]>> \o Flat(sp, o, j + 1)
@@ -221,13 +236,13 @@ Verdict(c) ==   \* <<ok?, expected-not-logged, logged-not-expected, #expected ro
           IN <<exp = log /\ eb = lb, IF exp # log THEN Pick(exp \ log) ELSE Pick(eb \ lb),
                IF exp # log THEN Pick(log \ exp) ELSE Pick(lb \ eb), Cardinality(exp), 0>>
 
-Step ==
+TStep ==
    /\ l <= Len(Rec) /\ l' = l + 1
    /\ LET c == Rec[l] IN
       IF c.st # "ok"
       THEN /\ ncerr' = ncerr + 1 /\ UNCHANGED <<nok, nrej, nexcl, nitems, npos, nerrh>>
            /\ Emit("CERR", [id |-> c.id, pat |-> c.pat, ek |-> c.ek])
-      ELSE IF Excluded(c.ast) \/ (Part = "x4" /\ c.r_st # "ok")
+      ELSE IF (Excluded(c.ast) /\ (Part = "x4" \/ Compile(c.ast, c.ng).err # "")) \/ (Part = "x4" /\ c.r_st # "ok")
       THEN /\ nexcl' = nexcl + 1 /\ UNCHANGED <<nok, nrej, ncerr, nitems, npos, nerrh>>
       ELSE LET v == TLCEval(Verdict(c))
            IN /\ nitems' = nitems + v[4] /\ npos' = npos + (IF v[4] > 0 THEN 1 ELSE 0) /\ nerrh' = nerrh + v[5]
@@ -240,7 +255,7 @@ Done == /\ l = Len(Rec) + 1 /\ l' = l + 1
         /\ Emit("STATS", [records |-> Len(Rec), ok |-> nok, rejected |-> nrej, excluded |-> nexcl, cerr |-> ncerr,
                           expected_rows |-> nitems, patterns_with_match |-> npos, error_histories |-> nerrh, texts |-> Len(Texts)])
         /\ UNCHANGED <<nok, nrej, nexcl, ncerr, nitems, npos, nerrh>>
-Next == Step \/ Done
+Next == TStep \/ Done
 Spec == Init /\ [][Next]_vars
 Consumed == TLCGet("stats").diameter = Len(Rec) + 2
 =============================================================================
